@@ -167,6 +167,7 @@ func cmdCheck(args []string) int {
 		seed, _ = strconv.Atoi(s)
 	}
 	to := *timeout
+	baseTo := 0 // the budget before it was stretched with the load
 	if to == 0 {
 		to = 10
 		if *tier == "thorough" {
@@ -174,9 +175,13 @@ func cmdCheck(args []string) int {
 		}
 		// on a machine that is busier than it has cores (several checks started at once) solver time stretches: the
 		// budget stretches with it (up to four times), so that load alone does not turn into timeouts
+		baseTo = to
 		if k := loadFactor(); k > 1 {
 			to = int(float64(to) * k)
 		}
+	}
+	if baseTo == 0 {
+		baseTo = to
 	}
 	// one directory per run (two runs of the same property may overlap); directories of finished runs are removed
 	// once they are older than half an hour
@@ -481,11 +486,16 @@ func cmdCheck(args []string) int {
 		}
 		if !definite && len(again) > 0 && len(again) <= 8 {
 			// the second attempt runs two at a time and its budget follows the load of the machine as it is now
-			budget := to * 6
+			// (six times the unstretched budget, stretched once with the present load, never more than 2.5 minutes in
+			// the quick tier: a broken tree must still be reported in reasonable time)
+			budget := baseTo * 6
 			if k := loadFactor(); k > 1 {
 				budget = int(float64(budget) * k)
 			}
-			rsem := make(chan struct{}, 2)
+			if *tier != "thorough" && budget > 150 {
+				budget = 150
+			}
+			rsem := make(chan struct{}, 3)
 			var rwg sync.WaitGroup
 			for _, i := range again {
 				rwg.Add(1)
